@@ -21,4 +21,4 @@ more.register(globals(), {"C02"}, ["par3_mixed", "map_fail_batches", "map_in_par
 globals()["nested_inner_catch_retry_task"]._vf.tiers = ("thorough",)   # 1665 schedules: quick tier runs it under C06 only
 
 import s2_found as found
-found.register(globals(), {"C02"}, ["caught_then_outer_fails"], {"caught_then_outer_fails": [("_a", "a_fails"), ("_noa", "not a_fails")]})
+found.register(globals(), {"C02"}, ["caught_then_outer_fails", "three_levels", "backstop_after_end", "raw_start_events"], {"caught_then_outer_fails": [("_a", "a_fails"), ("_noa", "not a_fails")]})
